@@ -662,7 +662,7 @@ func (s realSpec) rec(name string) *wire.Rec {
 
 func realSpecGen(r *rand.Rand, chars, lcs, relics []string) realSpec {
 	n := 1 + r.Intn(4)
-	s := realSpec{abil: pick(r, 1, 5, 9, 10, 15), energy: pick(r, 0, 50, 200), elevel: pick(r, 1, 1, 50, 80, 95), ehp: pick(r, 50, 500, 2000, 20000, 100000, 1000000),
+	s := realSpec{abil: pick(r, 1, 5, 9, 10, 15), energy: pick(r, 0, 50, 200), elevel: pick(r, 1, 1, 50, 80, 95, 99, 100, 2), ehp: pick(r, 50, 500, 2000, 20000, 100000, 1000000),
 		cycles: pick(r, 1, 2, 3, 5, 8), seed: pick(r, r.Intn(100000), r.Intn(100000), r.Intn(100000), 0, -7, 1<<40)} // every seed, zero and negative ones too
 	if r.Intn(3) == 0 {
 		s.quirk = r.Intn(64)
@@ -719,6 +719,12 @@ func (realComp) Gen(r *rand.Rand, tier string, n int) []*wire.Case {
 			s := sample
 			mut(&s)
 			cases = append(cases, &wire.Case{ID: fmt.Sprintf("d-unknown-%d", i), Ops: []*wire.Rec{s.rec("run")}})
+		}
+		// the ends of the in-range enemy levels (the level curves run from 1 to 100)
+		for _, lv := range []int{1, 2, 99, 100} {
+			s := sample
+			s.elevel, s.enemies = lv, []string{"dummy", "dummy"}
+			cases = append(cases, &wire.Case{ID: fmt.Sprintf("d-enemy-level-%d", lv), Ops: []*wire.Rec{s.rec("run")}})
 		}
 		// every registered character once, alone, with its own script
 		for _, c := range chars {
